@@ -30,7 +30,7 @@ type input struct {
 func opts(in input, chain []xf.M) rty.XOpts {
 	o := rty.XOpts{MaxDepth: in.Depth, MaxWidth: in.Width, AliasFamilies: xf.AliasFamilies(chain), AliasNum: 1, AliasDen: 4,
 		NamedSome: true, Sets: true, TextU: true, Embedded: true, StructElem: true, Maps: true, Slices: true, Arrays: true,
-		UserPtrs: true, DialsTags: true, Desc: true, PoolNames: true, ElemUnexported: true}
+		UserPtrs: true, DialsTags: true, Desc: true, PoolNames: true, ElemUnexported: true, ElemNested: true}
 	if len(o.AliasFamilies) == 0 {
 		o.AliasFamilies = []string{"dials"}
 		o.AliasDen = 8
@@ -99,11 +99,37 @@ func run(raw json.RawMessage) driver.Result {
 	if res.Panicked {
 		tags = append(tags, "panic: "+trim(res.PanicMsg, in.Raw))
 	}
+	if f.ElemZeros > 0 {
+		tags = append(tags, "has-zero-but-written-element-fields")
+	}
+	caseTerm := func(f xf.Filled, res xf.Out) string {
+		return fmt.Sprintf("XCase %d %s %s %s %s %s %s", mode, rty.TyTerm(t), xf.ChainTerm(chain), xf.TypeOutcome(tto),
+			rty.StructFieldsTerm(f.V), f.Oracle, xf.ValueOutcome(res))
+	}
+	var direct []string
+	coq := caseTerm(f, res)
+	if mode == 0 && r.Chance(1, 3) {
+		// the SAME Transformer reverse-translates a second, different filling;
+		// afterwards the first result is read again: it must not have changed,
+		// and both results are compared with the model
+		before := xf.ValueOutcome(res)
+		f2 := xf.Fill(r, t, tto.T, chain, 1+r.Intn(4), 4)
+		res2 := xf.ReverseSafe(tf, f2.V)
+		after := xf.ValueOutcome(res)
+		tags = append(tags, "second-reverse-on-same-transformer", "second-reverse-"+res2.Class())
+		if before != after {
+			direct = append(direct, "the result of the first ReverseTranslate changed when the same Transformer reverse-translated a second value")
+		}
+		if res2.Panicked {
+			tags = append(tags, "panic: "+trim(res2.PanicMsg, in.Raw))
+		}
+		coq = "XTwice (" + caseTerm(f, res) + ") (" + caseTerm(f2, res2) + ")"
+	}
 	return driver.Result{
-		Coq: fmt.Sprintf("XCase %d %s %s %s %s %s %s", mode, rty.TyTerm(t), xf.ChainTerm(chain), xf.TypeOutcome(tto),
-			rty.StructFieldsTerm(f.V), f.Oracle, xf.ValueOutcome(res)),
+		Coq:        coq,
 		Kind:       in.K + "-" + cname,
 		Nontrivial: xf.HasFanout(chain) && len(f.Depths) >= 2,
+		Direct:     direct,
 		Tags:       tags,
 	}
 }
@@ -170,7 +196,7 @@ func main() {
 	}
 	driver.Main(driver.Engine{
 		Prop: prop, CoqImport: "Dials.Check.C10Check", CoqRun: "run_cases",
-		Rule: "random struct types with globally unique field names (nesting, *struct, embedded value/pointer structs, []struct, [2]struct, map[string]struct, maps, sets map[T]struct{}, durations, TextUnmarshaler structs, named scalars/slices/maps, user pointers, dials/dialsdesc tags, alias tags of the chain's tag families on random fields incl. struct-typed ones), pointerified (1/16 raw, then with unexported fields); random chain = a shipped chain (env, flag, pflag, json/cue, yaml with/without anonymous-flatten, toml, ez's decoder wrap with each field-name encoder), three mixed chains covering every mangler, or a sub-chain of one of them; every translated top-level field filled with a per-case probability in {1/4..1}, nested pointers nil with probability 1/4, 1/6 of the filled fields SET TO THE ZERO VALUE of their type (non-nil pointer to false/0/\"\", empty non-nil slice or map; string-cast texts false / 0 / empty / 0s), string-cast fields with texts drawn for their original type (1/12 malformed); parse.String outcomes for the texts handed to the model as a table; non-trivial: chain contains a 1->n mangler (alias, flatten, anonymous-flatten) and non-nil leaves were written at >= 2 different depths; distinct = distinct PRNG case states",
+		Rule: "random struct types with globally unique field names (nesting, *struct, embedded value/pointer structs, []struct, [2]struct, map[string]struct, maps, sets map[T]struct{}, durations, TextUnmarshaler structs, named scalars/slices/maps, user pointers, dials/dialsdesc tags, alias tags of the chain's tag families on random fields incl. struct-typed ones), pointerified (1/16 raw, then with unexported fields); random chain = a shipped chain (env, flag, pflag, json/cue, yaml with/without anonymous-flatten, toml, ez's decoder wrap with each field-name encoder), three mixed chains covering every mangler, or a sub-chain of one of them; every translated top-level field filled with a per-case probability in {1/4..1}, nested pointers nil with probability 1/4, 1/6 of the filled fields SET TO THE ZERO VALUE of their type (non-nil pointer to false/0/\"\", empty non-nil slice or map; string-cast texts false / 0 / empty / 0s), string-cast fields with texts drawn for their original type (1/12 malformed); element structs of slices/arrays half of the time with one more level (struct, *struct, embedded (pointer) struct fields), one element in four the zero element and one written scalar in four of the others zero; one case in three reverse-translates a SECOND filling with the same Transformer and re-reads the first result afterwards (direct oracle: unchanged; both compared with the model); parse.String outcomes for the texts handed to the model as a table; non-trivial: chain contains a 1->n mangler (alias, flatten, anonymous-flatten) and non-nil leaves were written at >= 2 different depths; distinct = distinct PRNG case states",
 		Gen:  gen, Run: run,
 	})
 }
